@@ -657,3 +657,98 @@ def run(ctx):
             and c.qualname not in SAMPLERS_EXEMPT]
     ctx.check(not unl, "R13.4", "optuna", "consumer-table-complete", message=f"samplers/pruners not classified in the consumer table: {unl}",
               how="every BasePruner/BaseSampler subclass in optuna.pruners / optuna.samplers is listed with a reason")
+    _r13_7(ctx, p)
+    _r13_8(ctx, p)
+
+
+def _r13_8(ctx, p):
+    ctx.rule("R13.8", "a function that folds the direction into objective values with a sign factor (sign * trial.values[i]) uses every objective value that way: "
+             "a raw read next to the signed ones is ordered / subtracted in the wrong orientation for maximised objectives (equality tests and finiteness "
+             "predicates are direction-neutral)")
+    NEUTRAL_CALLS = {"np.isfinite", "numpy.isfinite", "math.isfinite", "math.isnan", "np.isnan", "numpy.isnan", "len", "np.isinf", "math.isinf"}
+
+    def is_sign(e):
+        t = norm(e)
+        return t in ("sign", "signs[i]", "self._sign") or t.startswith("sign") or t.startswith("signs[")
+
+    def is_raw(x):
+        return isinstance(x, ast.Attribute) and x.attr in ("values", "value") and isinstance(x.ctx, ast.Load) and not (isinstance(x.value, ast.Name) and x.value.id == "self")
+    n_fn = n_reads = 0
+    for f in p.iter_funcs(("optuna.samplers",)):
+        signed = [x for x in own_nodes(f.node) if isinstance(x, ast.BinOp) and isinstance(x.op, ast.Mult) and ((is_sign(x.left) and any(is_raw(y) for y in ast.walk(x.right)))
+                                                                                                         or (is_sign(x.right) and any(is_raw(y) for y in ast.walk(x.left))))]
+        if not signed:
+            continue
+        n_fn += 1
+        pm = parent_map(f.node)
+        for x in own_nodes(f.node):
+            if not is_raw(x):
+                continue
+            n_reads += 1
+            ok = False
+            for a in ancestors(x, pm):
+                if isinstance(a, ast.BinOp) and isinstance(a.op, ast.Mult) and (is_sign(a.left) or is_sign(a.right)):
+                    ok = True
+                    break
+                if isinstance(a, ast.Compare) and all(isinstance(o, (ast.Eq, ast.NotEq, ast.Is, ast.IsNot)) for o in a.ops):
+                    ok = True
+                    break
+                if isinstance(a, ast.Call) and (dotted(a.func) or "") in NEUTRAL_CALLS:
+                    ok = True
+                    break
+                if isinstance(a, (ast.stmt, ast.comprehension)) and not isinstance(a, ast.Expr):
+                    # the read is the iterable of `for i in range(len(x.values))` or similar bookkeeping
+                    if isinstance(a, ast.For) and any(y is x for y in ast.walk(a.iter)):
+                        ok = True
+                    break
+            ctx.check(ok, "R13.8", f.short, f"objective-value-read-is-signed:{norm(pm.get(id(x), x))[:40]}",
+                      message=f"{f.name} multiplies objective values by the direction sign elsewhere but reads `{norm(pm.get(id(x), x))[:50]}` raw: for a maximised "
+                              f"objective the raw values run opposite to the signed order the function sorts by, so a positional difference / extremum taken from them has the "
+                              f"wrong sign (NSGA-II crowding width becomes negative and the normalisation is silently switched off) - maximize f and minimize -f differ",
+                      how="sign * <trial>.values[i], an equality test, or a finiteness predicate", where=where(f, x))
+    ctx.floor("R13.8", "sign_applying_functions", n_fn, 1)
+
+
+def _inf_const(e) -> bool:
+    if isinstance(e, ast.UnaryOp) and isinstance(e.op, (ast.USub, ast.UAdd)):
+        return _inf_const(e.operand)
+    if isinstance(e, ast.Attribute) and e.attr == "inf" and dotted(e) in ("math.inf", "np.inf", "numpy.inf"):
+        return True
+    if isinstance(e, ast.Call) and dotted(e.func) == "float" and e.args and isinstance(e.args[0], ast.Constant) and str(e.args[0].value).lstrip("+-").lower() in ("inf", "infinity"):
+        return True
+    return False
+
+
+def _unsigned_inf_returns(p, prefixes):
+    """`return +-inf` in a pruner helper that receives the study direction, outside both arms of a direction test: a raw-space value that the caller
+    compares with `<` for one direction and `>` for the other"""
+    out = []
+    for f in p.iter_funcs(prefixes):
+        prm = [a for a in f.params() if a in ("direction", "study_direction")]
+        reads = any(isinstance(x, ast.Attribute) and x.attr == "direction" for x in own_nodes(f.node))
+        if not prm and not reads:
+            continue
+        pm = parent_map(f.node)
+        for n in own_nodes(f.node):
+            if isinstance(n, ast.Return) and n.value is not None and any(_inf_const(x) for x in ([n.value] + (list(n.value.elts) if isinstance(n.value, ast.Tuple) else []))):
+                under_dir = any(isinstance(a, ast.If) and "StudyDirection" in norm(a.test) for a in ancestors(n, pm))
+                if not under_dir:
+                    out.append((f, n))
+    return out
+
+
+def _r13_7(ctx, p):
+    ctx.rule("R13.7", "pruner helpers that hand a raw-space reference value to a direction-dependent comparison signal 'no reference' with NaN (both `<` and `>` are "
+             "false), never with an infinity chosen for one direction (zero-count, with fixture)")
+    hits = _unsigned_inf_returns(p, ("optuna.pruners",))
+    for f, n in hits:
+        ctx.fail("R13.7", f.short, f"no-reference-is-nan:{norm(n)[:30]}",
+                 f"{f.name} returns `{norm(n.value)}` outside a direction test although it serves both directions: the caller prunes when `best < reference` "
+                 f"(maximize) resp. `best > reference` (minimize), so an infinite 'no reference yet' prunes every maximised trial and no minimised one - "
+                 f"maximize f and minimize -f take different decisions", where=where(f, n))
+    if not hits:
+        ctx.ok("R13.7", "optuna/pruners", "no-unsigned-infinity-as-reference", how="0 returns of +-inf outside direction arms in direction-consuming pruner helpers")
+    from sa.loader import Program as _P
+    fx = _P.from_sources({"optuna.pruners.fx": "import math\ndef _ref(values, direction, n_min):\n    if len(values) < n_min:\n        return math.inf\n    return min(values)\n"})
+    ctx.require(len(_unsigned_inf_returns(fx, ("optuna.pruners",))) == 1, "R13.7: positive fixture not flagged (rule is blind)")
+
